@@ -99,6 +99,16 @@ def c05_a(ctx: Ctx):
                 out.append(ctx.ok(R, fi, c, "the job document is created only after init() (the directory exists before the first write)", construct=k))
             else:
                 out.append(ctx.viol(R, fi, c, "the job document can be created without init(): the first write fails or the job is never registered", construct=k))
+    pi = ctx.fn("signac.project:Project.__init__")
+    pa = [n for n in body_nodes(pi) if isinstance(n, ast.Assign) and any(canon(t) == "self._path" for t in n.targets)]
+    for a in pa:
+        v = a.value
+        nm = common.ext_name(ctx, pi, v) if isinstance(v, ast.Call) else None
+        if nm in ("os.path.abspath", "os.path.realpath"):
+            out.append(ctx.ok(R, pi, a, f"the project path is made absolute ({nm}): document and job file names do not depend on the current working directory", construct=pi.qual + "|abs-path"))
+        else:
+            out.append(ctx.viol(R, pi, a, f"the project path is stored as {canon(v)[:50]} (not made absolute): for Project('relative/dir') every document and job path is relative to the "
+                                "current working directory, which `with job:` changes, so later document writes fail or land elsewhere", construct=pi.qual + "|abs-path"))
     # other users of the file names
     jdoc = ctx.fold(ast.parse("Job.FN_DOCUMENT", mode="eval").body, None, ctx.prog.mod("signac.project"))
     pdoc = ctx.fold(ast.parse("Project.FN_DOCUMENT", mode="eval").body, None, ctx.prog.mod("signac.migration.v1_to_v2"))
@@ -108,7 +118,7 @@ def c05_a(ctx: Ctx):
                             construct="FN-constants"))
     else:
         out.append(ctx.ok(R, None, None, f"FN_DOCUMENT constants fold to distinct names ({jdoc}, {pdoc}; state point {jsp})", construct="FN-constants"))
-    users = [("signac.project:Project._build_index", jdoc), ("signac.job:Job.clear", jdoc), ("signac.sync:sync_jobs", jdoc),
+    users = [("signac.project:Project._build_index", jdoc), ("signac.sync:sync_jobs", jdoc),
              ("signac.migration.v1_to_v2:_migrate_v1_to_v2", pdoc)]
     for q, want in users:
         fi = ctx.fn(q)
@@ -133,6 +143,38 @@ def c05_a(ctx: Ctx):
     return out
 
 
+def _doc_file_guard(ctx, out, R):
+    """Job.clear() must leave the document *file* alone (the content is cleared through the handle)."""
+    fi = ctx.fn("signac.job:Job.clear")
+    jdoc = ctx.fold(ast.parse("self.FN_DOCUMENT", mode="eval").body, fi)
+    dels = [e for e in ctx.effects.direct(fi) if e.kind == "delete"]
+    for e in dels:
+        facts = common.facts_at(ctx, fi, e.node, "n")
+        ok = False
+        for (text, pol) in facts:
+            if pol:
+                continue
+            try:
+                t = ast.parse(text, mode="eval").body
+            except SyntaxError:
+                continue
+            if isinstance(t, ast.Compare) and len(t.ops) == 1 and isinstance(t.ops[0], (ast.In, ast.Eq)):
+                cont = ctx.fold(t.comparators[0], fi)
+                if cont is not UNKNOWN and isinstance(jdoc, str) and (jdoc == cont or (not isinstance(cont, str) and jdoc in cont)):
+                    ok = True
+        k = f"{fi.qual}|doc-file-guard|{e.prim}"
+        if ok:
+            out.append(ctx.ok(R, fi, e.node, f"{e.prim} in clear() never touches the document file; its content is cleared through the document handle", construct=k))
+        else:
+            out.append(ctx.viol(R, fi, e.node, f"{e.prim} in clear() can delete the job document file behind the document handle: inside signac.buffered() the buffered copy "
+                                "no longer matches the file and leaving the block fails, unlike an unbuffered run", construct=k))
+    clr = [c for c in body_nodes(fi) if isinstance(c, ast.Call) and canon(c.func) in ("self.document.clear", "self.doc.clear")]
+    if clr:
+        out.append(ctx.ok(R, fi, clr[0], "clear() empties the document through its handle"))
+    else:
+        out.append(ctx.viol(R, fi, fi.node, "clear() does not clear the document through its handle"))
+
+
 @rule("C05-b")
 def c05_b(ctx: Ctx):
     """Document handle dropped on id change (C03-b) and cleared before being dropped on remove()."""
@@ -142,6 +184,7 @@ def c05_b(ctx: Ctx):
         if "_document" in r.construct or "_document" in r.detail:
             r.rule = R
             out.append(r)
+    _doc_file_guard(ctx, out, R)
     rem = ctx.fn("signac.job:Job.remove")
     cfg = ctx.cfg(rem)
     drops = [n for n in cfg.stmt_nodes() if isinstance(n.ast, ast.Assign) and any(canon(t) == "self._document" for t in n.ast.targets)
@@ -168,8 +211,13 @@ def c05_c(ctx: Ctx):
         p = [x for x in fi.params if x != "self"]
         ok = any(isinstance(n, ast.Call) and canon(n.func) in ("self.document.reset", "self._document.reset", "self.doc.reset")
                  and n.args and isinstance(n.args[0], ast.Name) and p and n.args[0].id == p[0] for n in body_nodes(fi))
-        if ok:
-            out.append(ctx.ok(R, fi, fi.node, "assignment calls reset(<new value>) on the existing document handle"))
+        muts = [n for n in body_nodes(fi) if isinstance(n, ast.Call) and isinstance(n.func, ast.Attribute) and n.func.attr in ("clear", "update", "reset", "pop", "setdefault")
+                and ("doc" in canon(n.func.value))]
+        if ok and len(muts) == 1:
+            out.append(ctx.ok(R, fi, fi.node, "assignment is one reset(<new value>) on the existing document handle (a single atomic write)"))
+        elif len(muts) >= 2:
+            out.append(ctx.viol(R, fi, muts[0], f"whole-document assignment is split into {len(muts)} separate writes ({', '.join(m.func.attr for m in muts)}): a reader or a crash between them "
+                                "observes a document that is neither the old nor the new content (e.g. {})"))
         else:
             out.append(ctx.inc(R, fi, fi.node, "setter does not have the shape self.document.reset(new_doc)"))
     for q, tgt in (("signac.job:Job.doc", "document"), ("signac.project:Project.doc", "document")):
